@@ -364,10 +364,26 @@ pub fn case(d: &mut Draw, opts: &CliOpts) -> Outcome {
                 if std::env::var("C32_DEBUG").is_ok() {
                     eprintln!("no report ({}): {e}\n{}", cfg.label, files.iter().map(|f| f.1.clone()).collect::<Vec<_>>().join("\n"));
                 }
-                let reason = if e.starts_with("timeout") { "timeout" } else { "no report (project rejected or CLI failed)" };
                 // a project that analyses in one run and not in another would be a
                 // difference, but there is no per-test triple to compare: out of domain
-                return Outcome::skip(format!("cli: {reason}"));
+                if !e.starts_with("timeout") {
+                    return Outcome::skip("cli: no report (project rejected or CLI failed)");
+                }
+                // time limits never decide anything; keep what is needed to look at it by hand
+                let long = p.tests.iter().any(|t| t.long);
+                let dir = format!("{}/.work/c32-timeouts", vcore::run::out_root());
+                let _ = std::fs::create_dir_all(&dir);
+                let h = hash_str(&format!("{seed}|{:?}", files));
+                let _ = std::fs::write(
+                    format!("{dir}/{h:016x}.json"),
+                    serde_json::to_string_pretty(&describe(json!({"run": cfg.label, "command": ws.command_line(cfg), "timings": format!("{:?}", cfg.timings)}))).unwrap_or_default(),
+                );
+                return Outcome::skip(format!(
+                    "cli: timeout in run {} (backend {}, {})",
+                    cfg.label,
+                    backend.unwrap_or("cc-default"),
+                    if long { "has a long test" } else { "no long test" }
+                ));
             }
         }
     }
